@@ -188,6 +188,51 @@ def gen_tails_exits(g: Gen, c: Contract):
     return {'self': scfg, 'tails': T, 'exits': E}
 
 
+def random_stream(r):
+    """a WFdis-like instruction stream: even increasing offsets, jump targets inside, ends with a return"""
+    import types as _t
+    n = r.randint(1, 8)
+    offs = []
+    o = 0
+    for _ in range(n):
+        offs.append(o)
+        o += 2 * r.choice([1, 1, 1, 2])
+    ops = []
+    for i in range(n):
+        if i == n - 1:
+            ops.append(r.choice(['RETURN_VALUE', 'RETURN_CONST', 'JUMP_BACKWARD']))
+        else:
+            ops.append(r.choice(['LOAD_FAST', 'LOAD_FAST', 'STORE_FAST', 'POP_JUMP_IF_FALSE', 'POP_JUMP_IF_TRUE', 'FOR_ITER', 'JUMP_FORWARD',
+                                 'JUMP_BACKWARD', 'RETURN_VALUE', 'POP_JUMP_IF_NONE', 'NOP']))
+    insts = []
+    for i in range(n):
+        jump = ops[i].startswith('POP_JUMP') or ops[i].startswith('JUMP') or ops[i] == 'FOR_ITER'
+        insts.append(_t.SimpleNamespace(offset=offs[i], opname=ops[i], argval=(r.choice(offs) if jump else r.randint(0, 3)), is_jump_target=False))
+    tg = {x.argval for x in insts if x.opname.startswith('POP_JUMP') or x.opname.startswith('JUMP') or x.opname == 'FOR_ITER'}
+    for x in insts:
+        x.is_jump_target = x.offset in tg
+    return insts
+
+
+def gen_stream(g: Gen, c: Contract):
+    return {'bc': random_stream(g.rng)}
+
+
+def gen_flowinfo(g: Gen, c: Contract):
+    from numba_scfg.core.datastructures.flow_info import FlowInfo
+    fi = FlowInfo.from_bytecode(random_stream(g.rng))
+    if 'targets' in c.params:
+        return {'self': fi, 'offset': g.rng.randint(0, 10) * 2, 'targets': tuple(g.rng.randint(0, 10) * 2 for _ in range(g.rng.randint(0, 2)))}
+    return {'self': fi, 'end_offset': None}
+
+
+def gen_block_bcmap(g: Gen, c: Contract):
+    st = random_stream(g.rng)
+    bcmap = {x.offset: x for x in st if g.rng.random() < 0.85}
+    b = g.rng.randint(0, 6) * 2
+    return {'self': g.bb.PythonBytecodeBlock(name='b', begin=b, end=b + g.rng.randint(0, 6) * 2 + g.rng.choice([0, 0, 1])), 'bcmap': bcmap}
+
+
 def gen_namegen(g: Gen, c: Contract):
     r = g.rng
     kinds = ['a', 'synth_asign', 'control', 'a_block_1', 'x_region_', '__scfg_', '1', '']
@@ -201,7 +246,7 @@ def gen_graph_and_pair(g: Gen, c: Contract):
     return {'self': scfg, 'begin': g.rng.choice(keys) if g.rng.random() < 0.9 else 'zz', 'end': g.rng.choice(keys + UNIVERSE)}
 
 
-GENERATORS = {'namegen': gen_namegen, 'insert_ctrl': gen_insert_ctrl, 'tails_exits': gen_tails_exits, 'graph_and_pair': gen_graph_and_pair, 'graph_and_subset': gen_graph_and_subset, 'insert': gen_insert, 'branch_replace': gen_branch_replace}
+GENERATORS = {'stream': gen_stream, 'flowinfo': gen_flowinfo, 'block_bcmap': gen_block_bcmap, 'namegen': gen_namegen, 'insert_ctrl': gen_insert_ctrl, 'tails_exits': gen_tails_exits, 'graph_and_pair': gen_graph_and_pair, 'graph_and_subset': gen_graph_and_subset, 'insert': gen_insert, 'branch_replace': gen_branch_replace}
 
 
 def gen_args(g: Gen, c: Contract):
@@ -219,6 +264,8 @@ def describe(v):
     if dataclasses.is_dataclass(v) and not isinstance(v, type):
         if type(v).__name__ == 'NameGenerator':
             return {'NameGenerator': dict(v.kinds)}
+        if type(v).__name__ == 'FlowInfo':
+            return {'FlowInfo': {'block_offsets': sorted(v.block_offsets), 'jump_insts': {str(k): list(t) for k, t in v.jump_insts.items()}, 'last_offset': v.last_offset}}
         if type(v).__name__ == 'SCFG':
             return {'SCFG': {k: describe(b) for k, b in v.graph.items()}, 'kinds': dict(v.name_gen.kinds)}
         d = {'class': type(v).__name__}
@@ -236,6 +283,8 @@ def describe(v):
         return {str(k): describe(x) for k, x in v.items()}
     if isinstance(v, type):
         return {'type': v.__name__}
+    if type(v).__name__ == 'SimpleNamespace':
+        return {'inst': dict(vars(v))}
     return v
 
 
@@ -243,6 +292,13 @@ def rebuild(d, g: Gen = None):
     """Inverse of describe (for replay files)."""
     from numba_scfg.core.datastructures import basic_block as bb
     from numba_scfg.core.datastructures.scfg import SCFG, NameGenerator
+    if isinstance(d, dict) and 'inst' in d:
+        import types as _t
+        return _t.SimpleNamespace(**d['inst'])
+    if isinstance(d, dict) and 'FlowInfo' in d:
+        from numba_scfg.core.datastructures.flow_info import FlowInfo
+        f = d['FlowInfo']
+        return FlowInfo(block_offsets=set(f['block_offsets']), jump_insts={int(k): tuple(t) for k, t in f['jump_insts'].items()}, last_offset=f['last_offset'])
     if isinstance(d, dict) and 'NameGenerator' in d:
         return NameGenerator(kinds=dict(d['NameGenerator']))
     if isinstance(d, dict) and 'SCFG' in d:
